@@ -141,3 +141,40 @@ func TestVerifReplayPoolNullNodeSubnet(t *testing.T) {
 	err := json.Unmarshal([]byte(`{"nodeSubnets":[null],"ips":["10.0.0.2"],"subnet":"10.0.0.0/24","gateway":"10.0.0.1"}`), &pool)
 	fmt.Println("NOT-REPRODUCED: decoder returned", err)
 }
+
+// (*crdIpam).NodeSubnetsByIPRanges#inv-step:L1 / #post:offered-subnet-serves-every-range: every
+// offered node subnet must be able to serve EVERY requested range list. Replay: three range lists
+// whose first two have no common subnet; the third must not resurrect the first one's subnets.
+func TestVerifReplayNodeSubnetsIntersection(t *testing.T) {
+	ipam := createTestCrdIPAM(t)
+	var ipranges [][]nets.IPRange
+	if err := json.Unmarshal([]byte(`[["10.49.27.216"],["10.173.13.10~10.173.13.13"],["10.49.27.216"]]`), &ipranges); err != nil {
+		t.Fatal(err)
+	}
+	subnets, err := ipam.NodeSubnetsByIPRanges(ipranges)
+	if err != nil {
+		t.Fatal(err)
+	}
+	for _, s := range subnets.List() {
+		for i, ranges := range ipranges {
+			served := false
+			for ipStr, fip := range ipam.unallocatedFIPs {
+				ip := net.ParseIP(ipStr)
+				in := false
+				for _, r := range ranges {
+					if r.Contains(ip) {
+						in = true
+					}
+				}
+				if in && fip.pool.nodeSubnets.Has(s) {
+					served = true
+				}
+			}
+			if !served {
+				fmt.Printf("REPRODUCED: node subnet %s is offered for ranges %v but no free ip of range list %d (%v) is reachable from it\n", s, ipranges, i, ranges)
+				t.FailNow()
+			}
+		}
+	}
+	fmt.Println("NOT-REPRODUCED: offered subnets", subnets.List(), "serve every range list")
+}
